@@ -6,12 +6,14 @@ from hypothesis import strategies as st
 from vf import tk
 from vf.core import Phase, Raised, Res, call
 from vf.ext import extract, kind
+from vf.gen import inventory as inv
 from vf.gen import legal
 
 ID = "C03"
 RULE = (
     "(a) citation-dense documents (parallel cites, short-form parallels, string cites, planted 'Name at N' mentions) "
-    "through get_citations with {ac, hs}; (b) merge histories drawn as data: a document plus a list of operations "
+    "and documents citing reporter strings with several candidate editions with and without a year, through get_citations "
+    "with {ac, hs}, a third of them also with remove_ambiguous=True; (b) merge histories drawn as data: a document plus a list of operations "
     "add_refs(full-cite index, name field, name choice) / refilter, each executed with the documented flow "
     "extract_reference_citations + filter_citations, invariants checked after every step. Non-trivial: >= 2 citations "
     "sharing a full-span start (parallel / short-parallel pair) or containing a reference citation, or a history in "
@@ -56,6 +58,14 @@ def evaluate(case):
         res.label("raised")
         return res
     check_order(res, cites, "extract")
+    if case.get("ra"):
+        # the same guarantees for the other documented option set: ambiguous resource citations removed
+        ra, _ = extract({**case, "remove_ambiguous": True})
+        if not isinstance(ra, Raised):
+            check_order(res, ra, "extract-ra")
+            res.label("remove-ambiguous")
+            if len(ra) != len(cites):
+                res.label("remove-ambiguous:removed-some")
     starts = [c.full_span()[0] for c in cites]
     has_parallel = len(starts) != len(set(starts))
     has_ref = any(isinstance(c, ReferenceCitation) for c in cites)
@@ -208,8 +218,33 @@ def _history():
                      st.lists(_op, min_size=1, max_size=8))
 
 
+@st.composite
+def _ambiguous_doc(draw):
+    """Documents in which reporter strings with several candidate editions occur with and without a year."""
+    reps = draw(st.lists(st.sampled_from(inv.multi_candidate_strings()), min_size=1, max_size=2))
+    out = []
+    for _ in range(draw(st.integers(2, 6))):
+        r = draw(st.sampled_from(reps))
+        v, p = draw(st.integers(1, 30)), draw(st.integers(1, 300))
+        k = draw(st.integers(0, 5))
+        if k == 0:
+            out.append(f"Foo v. Bar, {v} {r} {p} ({draw(st.sampled_from(['1790', '1850', '1890', '1950', '2005']))})")
+        elif k == 1:
+            out.append(f"{v} {r} {p}")
+        elif k == 2:
+            out.append(f"{v} {r} at {p}")
+        elif k == 3:
+            out.append(draw(legal.fragment(hostile=False)))
+        elif k == 4:
+            out.append(f"Bar at {p}")
+        else:
+            out.append(draw(st.sampled_from(["Id. at 5", "2 U.S. 3", "4 F.2d 6 (1999)", "Bar, supra, at 7"])))
+    return draw(st.sampled_from([". ", "; ", ". See "])).join(out) + "."
+
+
 def _docs(which):
-    return st.one_of(legal.document(hostile=True), _doc_with_refs()).map(lambda t: {"text": t, "tokenizer": which})
+    return st.builds(lambda t, ra: {"text": t, "tokenizer": which, "ra": ra},
+                     st.one_of(legal.document(hostile=True), _doc_with_refs(), _ambiguous_doc()), st.integers(0, 2).map(lambda k: k == 0))
 
 
 def phases(tier):
